@@ -12,7 +12,7 @@ use std::rc::Rc;
 pub const DEF: PropDef = PropDef {
     id: "C20",
     level: "exploration",
-    rule: "a corpus of programs (succeeding, failing at parse time on various lines, failing at run time after k lines of output, failing with messages that quote values of 60..5000 characters / elements (ASCII and multi-byte), reading input, printing multi-line strings, building dictionaries, stray break / continue / return at top level followed by further blocks, several lint diagnostics per line in both name orders) x 8 standard-input contents (lines ending in CR LF, empty, one line, several lines, no final newline, non-ASCII, a line that is not valid UTF-8, leading blank lines) x sub-commands exec (separate pipes and stdout+stderr merged into one pipe), lint, parse; plus 14 file forms (a said text of 8 KiB stretches between line breaks, leading blank lines, string constants with backticks, missing final newline, CRLF, byte-order mark, multi-line strings, 3000 lines (more output than a pipe buffer) with and without a final runtime error) under 12 file names (blanks, non-ASCII, NBSP, tab, apostrophe, no / double / upper-case extension, hidden, nested directories, a directory named like an option) x 4 sub-command modes; plus usage errors (unknown sub-command, missing argument, missing file, directory as file) and dictionary programs run as separate processes under 8 hash seeds (LD_PRELOAD getrandom shim); oracle (independent of src/cli): stdout equals what frontend::parser::parse + exec::exec_using write for the same text and input; `parse` prints the pretty Debug tree of the library's parse; `lint` prints one line per library diagnostic (its line and issue) followed by one tab-indented line per suggestion and nothing else; errors go to stderr as `<prefix naming parse/runtime>: <library message>`, on the merged pipe the error line comes after all output, usage errors exit non-zero; non-trivial = every case (a process is spawned and compared); distinct = distinct (program, input, mode)",
+    rule: "a corpus of programs (succeeding, failing at parse time on various lines, failing at run time after k lines of output, failing with messages that quote values of 60..5000 characters / elements (ASCII and multi-byte), reading input, printing multi-line strings, building dictionaries, stray break / continue / return at top level followed by further blocks, several lint diagnostics per line in both name orders) x 8 standard-input contents (lines ending in CR LF, empty, one line, several lines, no final newline, non-ASCII, a line that is not valid UTF-8, leading blank lines) x sub-commands exec (separate pipes; stdout+stderr merged into one pipe for the first two inputs, thorough: for all), lint, parse; plus 14 file forms (a said text of 8 KiB stretches between line breaks, leading blank lines, string constants with backticks, missing final newline, CRLF, byte-order mark, multi-line strings, 3000 lines (more output than a pipe buffer) with and without a final runtime error) under 12 file names (blanks, non-ASCII, NBSP, tab, apostrophe, no / double / upper-case extension, hidden, nested directories, a directory named like an option) x 4 sub-command modes; plus 4 programs handed over through a pipe (`rrss SUB /dev/stdin < program`); plus usage errors (unknown sub-command, missing argument, missing file, directory as file) and dictionary programs run as separate processes under 8 hash seeds (LD_PRELOAD getrandom shim); oracle (independent of src/cli): stdout equals what frontend::parser::parse + exec::exec_using write for the same text and input; `parse` prints the pretty Debug tree of the library's parse; `lint` prints one line per library diagnostic (its line and issue) followed by one tab-indented line per suggestion and nothing else; errors go to stderr as `<prefix naming parse/runtime>: <library message>`, on the merged pipe the error line comes after all output, usage errors exit non-zero; non-trivial = every case (a process is spawned and compared); distinct = distinct (program, input, mode)",
     assumptions: &["NO_COLOR=1 for both sides", "exit status after parse / runtime errors and with no arguments at all is observed and reported, not judged (the property does not state it)", "the binaries are rebuilt from /repo by ./check before the run"],
     build,
     exhaustive: true,
@@ -36,6 +36,9 @@ pub struct C20 {
     /// (source text, mode, file name relative to the scratch directory)
     named: Space<(String, Mode, &'static str)>,
 }
+
+/// programs handed to the binary through a pipe instead of a regular file: `rrss SUB /dev/stdin < program`
+pub const PIPED: &[&str] = &["say 1\nsay 2\n", "put 5 into x\nput 5 into x\nsay x plus x\nsay zed\n", "say 1\nput 1 into\n", "listen to x\nsay x\nsay \"end\"\n"];
 
 /// file names a path-handling slip would trip over
 pub const FILE_NAMES: &[&str] = &["my prog.rock", "prög €.rock", ".hidden", "noext", "UPPER.ROCK", "a.b.c.rock", "sub dir/inner/p.rock", "x\u{a0}y.rock", "tab\there.rock", "it's.rock", "-.rock/p.rock", "p.rock.bak"];
@@ -145,7 +148,10 @@ fn build(tier: Tier) -> Box<dyn Check> {
     let mut modes: Vec<Mode> = Vec::new();
     for i in 0..STDINS.len() {
         modes.push(Mode::Exec(i, false));
-        modes.push(Mode::Exec(i, true));
+        // both streams on one pipe: what matters is the order of output and error line, not the input
+        if i < 2 || tier == Tier::Thorough {
+            modes.push(Mode::Exec(i, true));
+        }
     }
     modes.push(Mode::Lint);
     modes.push(Mode::Parse);
@@ -360,12 +366,14 @@ fn lossy(b: &[u8]) -> String {
 
 impl Check for C20 {
     fn families(&self) -> Vec<(String, u64)> {
-        vec![("program x input x sub-command".into(), self.cases.len()), ("usage".into(), self.usage.len() as u64), ("file name x file form x sub-command".into(), self.named.len())]
+        vec![("program x input x sub-command".into(), self.cases.len()), ("usage".into(), self.usage.len() as u64), ("file name x file form x sub-command".into(), self.named.len()), ("program read from a pipe (/dev/stdin)".into(), (PIPED.len() * 3) as u64)]
     }
     fn describe(&self, fam: usize, idx: u64) -> Value {
         if fam == 1 {
             let (name, args, _) = &self.usage[idx as usize];
             json!({"text": format!("rrss {}", args.join(" ")), "usage_case": name})
+        } else if fam == 3 {
+            json!({"text": format!("rrss {} /dev/stdin < {:?}", ["exec", "lint", "parse"][(idx % 3) as usize], PIPED[(idx / 3) as usize])})
         } else if fam == 2 {
             let (src, m, name) = self.named.get(idx);
             json!({"text": format!("{:?} on file {:?} holding {:?}", m, name, crate::engine::orch::truncate(&src, 200)), "mode": format!("{:?}", m)})
@@ -376,6 +384,33 @@ impl Check for C20 {
     }
     fn run_case(&self, fam: usize, idx: u64, ctx: &mut Ctx) {
         ctx.nontrivial();
+        if fam == 3 {
+            let src = PIPED[(idx / 3) as usize];
+            let (sub, mode) = [("exec", Mode::Exec(0, false)), ("lint", Mode::Lint), ("parse", Mode::Parse)][(idx % 3) as usize].clone();
+            // the program arrives on standard input; what is left of standard input afterwards is empty
+            let want = library(&mode, src);
+            match spawn(&[sub, "/dev/stdin"], src.as_bytes(), false, None) {
+                Ok(s) => {
+                    ctx.observe(&s.stdout);
+                    if s.code.is_none() || s.timed_out {
+                        ctx.violation("crash", format!("`rrss {} /dev/stdin` with the program on a pipe was killed or hung — program {:?}", sub, src));
+                        return;
+                    }
+                    let ok_out = match &want.diags {
+                        Some(d) if matches!(want.err, LibErr::None) => check_lint_stdout(d, &s.stdout).is_ok(),
+                        _ => s.stdout == want.stdout,
+                    };
+                    if !ok_out {
+                        ctx.violation("cli-differs", format!("`rrss {} /dev/stdin < program`: library gives {:?}, binary printed {:?} — program {:?}", sub, lossy(&want.stdout), lossy(&s.stdout), src));
+                    }
+                    if let Err(m) = check_stderr(&want.err, &s.stderr) {
+                        ctx.violation("cli-differs", format!("`rrss {} /dev/stdin < program`: {} — program {:?}", sub, m, src));
+                    }
+                }
+                Err(e) => ctx.violation("cannot-spawn", format!("cannot run the rrss binary {}: {}", bin_path().display(), e)),
+            }
+            return;
+        }
         if fam == 1 {
             let (name, args, judged) = &self.usage[idx as usize];
             // "@OK" stands for an existing, valid program file
